@@ -88,6 +88,11 @@ def run(ctx):
                 raw = (np.arange(int(np.prod(shape))) % 100).astype(in_dt).reshape(shape)
             path = os.path.join(tmp, "v.nii")
             img = nibabel.Nifti1Image(raw, A, dtype=raw.dtype)
+            # the header may DECLARE its spatial unit; whatever reading the tool takes (the documentation says
+            # millimetres), resolution, linear part and translation must all follow the SAME one
+            unit = rng.choice([None, None, None, "mm", "micron", "meter", "unknown"])
+            if unit is not None:
+                img.header.set_xyzt_units(unit)
             nibabel.save(img, path)
             scaled = kind != "rgb" and rng.random() < 0.4
             if scaled:
@@ -100,7 +105,7 @@ def run(ctx):
             if rng.random() < 0.2:
                 opts = {"sharding": f"{rng.randrange(3)},{rng.randrange(3)},{rng.randrange(3)}", "gzip": rng.random() < 0.5}
             dest = os.path.join(tmp, "out")
-            desc = {"affine_kind": akind, "affine": A.tolist(), "kind": kind, "size": list(size), "input_dtype": in_dt,
+            desc = {"affine_kind": akind, "affine": A.tolist(), "declared_unit": unit, "kind": kind, "size": list(size), "input_dtype": in_dt,
                     "scaled_header": scaled, "ignore_scaling": ignore, "input_max": input_max, "options": opts}
             try:
                 rc = volume_reader.volume_file_to_info(path, dest, ignore_scaling=ignore, input_max=input_max,
@@ -128,6 +133,29 @@ def run(ctx):
                 ctx.oracle_fail("info size differs from the volume size", dict(desc, got=sc["size"]))
             if info["num_channels"] != C:
                 ctx.oracle_fail("info channel count is wrong", dict(desc, got=info["num_channels"], want=C))
+            readings = [1e6] + ([{"micron": 1e3, "meter": 1e9}[unit]] if unit in ("micron", "meter") else [])
+            ctx.hist("declared_unit", unit)
+
+            def consistent(u):
+                if not np.allclose(sc["resolution"], vs * u, rtol=1e-12, atol=0):
+                    return False
+                res_ = np.array(sc["resolution"], dtype=float)
+                for idx in [(0, 0, 0), (size[0] - 1, size[1] - 1, size[2] - 1), (1, 0, 2), (0.25, 3.5, -1)]:
+                    i = np.array(idx, dtype=float)
+                    lhs = T[:3, :3] @ ((i + 0.5) * res_) + T[:3, 3]
+                    rhs = (aff[:3, :3] @ i + aff[:3, 3]) * u
+                    scale_ = max(1.0, float(np.max(np.abs(rhs))), float(np.max(np.abs(aff[:3, :3]))) * u)
+                    if float(np.max(np.abs(lhs - rhs))) / scale_ > 1e-9:
+                        return False
+                return True
+            if len(readings) > 1 and not any(consistent(u) for u in readings):
+                ctx.oracle_fail("resolution and transform do not place the image consistently under ANY reading of the "
+                                "declared spatial unit (millimetres as documented, or the unit the header declares)",
+                                dict(desc, resolution=sc["resolution"], transform=T.tolist()))
+                continue
+            if len(readings) > 1 and not consistent(1e6):
+                ctx.bump("declared_unit_honoured")
+                continue       # consistently read in the declared unit: the millimetre-based checks below do not apply
             if not np.allclose(sc["resolution"], vs * 1e6, rtol=1e-12, atol=0):
                 ctx.oracle_fail("resolution is not the voxel size in nanometres", dict(desc, got=sc["resolution"]))
             if opts.get("sharding"):
